@@ -198,6 +198,8 @@ def run_property(modname: str, tier: str, seed: int, replay: str | None = None) 
     ftargets, fthms = [], {}
     for fname in getattr(mod, 'FOUNDATIONS', []):
         fmod = importlib.import_module(fname)
+        if hasattr(fmod, 'for_property'):
+            fmod.for_property(pid)      # a foundation serving several properties narrows LEAN_TARGETS / THEOREMS / cases() to this one
         ftargets += list(getattr(fmod, 'LEAN_TARGETS', []))
         fthms.update(getattr(fmod, 'THEOREMS', {}))
     lean = core.lean_obligations(pid, list(getattr(mod, 'LEAN_TARGETS', None) or []) + ftargets, fthms)
@@ -238,6 +240,8 @@ def run_property(modname: str, tier: str, seed: int, replay: str | None = None) 
     # their correspondence runs are part of the tie; a disagreement is a 'model' finding
     for fname in getattr(mod, 'FOUNDATIONS', []):
         fmod = importlib.import_module(fname)
+        if hasattr(fmod, 'for_property'):
+            fmod.for_property(pid)
         frng = random.Random(seed * 31337 + 3)
         fcases = list(fmod.cases(frng, tier))
         fres = evaluate_parallel(fmod, fcases)
